@@ -246,7 +246,9 @@ Definition sx_cluster (st : cstate) (pools : list (bytes * bool)) (table : list 
        SL (map (fun s => match table_lookup table s with
                          | Some rs => SL [SN s; SB (cn_addr (fst rs)); SL (map (fun n => SB (cn_addr n)) (snd rs))]
                          | None => SL [SN s]
-                         end) probes) ].
+                         end) probes);
+       (* the addresses the ticker draws the node to probe from: the pool addresses *)
+       SL (map (fun p => SB (fst p)) (fold_right insert_pool [] pools)) ].
 
 Fixpoint run_cluster (info : info_oracle) (evs : list sx) (st : cstate) (pools : list (bytes * bool))
                      (table : list (cnode * list cnode)) (probes : list Z) : list sx :=
@@ -301,7 +303,7 @@ Definition e_cparse (a : sx) : sx :=
    the loop must keep reading; after every ticker round each probe slot's owner is a set of the dump
    that claims the slot with the dump's replicas, an unowned slot is claimed by nobody, and the
    pools are exactly the known servers *)
-Definition dump_parts (d : sx) := match d with SL [SL servers; SL sets; SN changed; SL pools; SL owners] => Some (servers, sets, changed, pools, owners) | _ => None end.
+Definition dump_parts (d : sx) := match d with SL [SL servers; SL sets; SN changed; SL pools; SL owners; SL addrs] => Some (servers, sets, changed, pools, owners, addrs) | _ => None end.
 
 Definition server_slots (servers : list sx) (addr : bytes) : list (Z * Z) :=
   match find (fun n => match n with SL [_; SB a; _; _; _] => beqb a addr | _ => false end) servers with
@@ -326,7 +328,10 @@ Fixpoint check_dumps (evs : list sx) (dumps : list sx) : sx :=
   | ev :: evs', d :: dumps' =>
       match dump_parts d with
       | None => bad
-      | Some (servers, sets, changed, pools, owners) =>
+      | Some (servers, sets, changed, pools, owners, addrs) =>
+          (* the ticker probes a node drawn from addrs: at all times exactly the nodes that have a pool *)
+          if negb (sx_eqb (SL addrs) (SL (map (fun p => match p with SL [SB a; _] => SB a | _ => SL [] end) pools)))
+          then viol "probe-candidates-differ-from-pools" [SL addrs] else
           match ev with
           | SL [SN 1%Z] =>
               if negb (forallb (owner_ok servers sets) owners) then viol "slot-owner-inconsistent-with-adopted-topology" [SL owners]
@@ -349,7 +354,7 @@ Fixpoint check_dumps (evs : list sx) (dumps : list sx) : sx :=
    description (computed by the specification functions parse_nodes / set_replicaset / table_lookup) *)
 Fixpoint compare_ticks (evs : list sx) (impl model : list sx) : sx :=
   match evs, impl, model with
-  | SL [SN 1%Z] :: evs', SL [_; si; _; pi; oi] :: impl', SL [_; sm; _; pm; om] :: model' =>
+  | SL [SN 1%Z] :: evs', SL [_; si; _; pi; oi; _] :: impl', SL [_; sm; _; pm; om; _] :: model' =>
       if negb (sx_eqb si sm && sx_eqb oi om)%bool then viol "topology-after-ticker-differs-from-latest-valid-description" [sm; om]
       else if negb (sx_eqb pi pm) then viol "pool-set-or-pool-role-differs-from-latest-valid-description" [pm; pi]
       else compare_ticks evs' impl' model'
